@@ -6,6 +6,7 @@ pub mod gen_vm;
 pub mod model;
 pub mod props;
 pub mod rngs;
+pub mod selharness;
 pub mod stats;
 pub mod vm_oracle;
 
